@@ -249,6 +249,7 @@ type v9Viol struct {
 
 type v9Result struct {
 	Sequences   int       `json:"sequences"`
+	Quiet       int       `json:"sequences_reexecuted_with_reads_only_at_the_end"`
 	Operations  int       `json:"operations"`
 	Reads       int       `json:"reads_compared"`
 	CrashImages int       `json:"crash_images"`
@@ -696,6 +697,38 @@ func (c *v9Ctx) runSeq(t *testing.T, initPB bool, seq []int) int {
 	return -1
 }
 
+// runSeqQuiet executes the sequence once more WITHOUT looking at the store in between: the accessors are
+// called only after the last operation.  State that an accessor leaves behind (a cached index, a lazily
+// built iterator) is then in the condition the operations left it in, not the one the observer of runSeq
+// refreshed after every step.
+func (c *v9Ctx) runSeqQuiet(t *testing.T, initPB bool, seq []int) {
+	dir := filepath.Join(c.base, "dbq")
+	os.RemoveAll(dir)
+	s, err := v9Open(dir, initPB)
+	if err != nil {
+		t.Fatalf("open fresh: %v", err)
+	}
+	defer func() {
+		if s != nil && s.db != nil {
+			s.Close()
+		}
+	}()
+	m := v9NewModel(initPB)
+	c.res.Quiet++
+	for k, oi := range seq {
+		op := c.ops[oi]
+		if err := v9ApplyStore(dir, &s, op); err != nil {
+			c.res.report("operation fails (no reads in between): "+v9KindTag(op, m.proto), strings.Join(c.names(initPB, seq[:k+1]), " ; ")+"  =>  "+err.Error(), c.names(initPB, seq[:k+1]), []string{err.Error()})
+			return
+		}
+		v9ApplyModel(m, op)
+	}
+	if mm := v9Check(s, m, false, &c.res.Reads); len(mm) > 0 {
+		last := c.ops[seq[len(seq)-1]]
+		c.reportMis(mm, "when read only after the last operation, "+v9KindTag(last, m.proto), c.names(initPB, seq))
+	}
+}
+
 func TestVerifC09Seq(t *testing.T) {
 	shard, nshards := v9Env("VERIF_SHARD", 0), v9Env("VERIF_NSHARDS", 1)
 	depth := v9Env("VERIF_C09_DEPTH", 3)
@@ -716,8 +749,12 @@ func TestVerifC09Seq(t *testing.T) {
 				c.res.Exhaustive = false
 				return
 			}
-			if k := c.runSeq(t, initPB, seq); k >= 0 && k < depth-1 {
+			k := c.runSeq(t, initPB, seq)
+			if k >= 0 && k < depth-1 {
 				bad[key(initPB, seq[:k+1])] = true
+			}
+			if k < 0 && depth > 1 {
+				c.runSeqQuiet(t, initPB, seq)
 			}
 			if len(c.res.Samples) < 3 && c.res.Sequences%997 == 1 {
 				c.res.Samples = append(c.res.Samples, strings.Join(c.names(initPB, seq), " ; "))
